@@ -274,7 +274,14 @@ func TestVerifC20(t *testing.T) {
 			vfExploreTree(run, root, []vfFileSpec{{"pkg/two.go", []int{a, b}, 0}}, -1, orders)
 			run.Sample(map[string]interface{}{"tree": vfTreeDesc([]vfFileSpec{{"pkg/two.go", []int{a, b}, 0}})})
 			// triples: third item from the annotated kinds; iteration orders within 1 deviation (full in thorough)
-			for _, c3 := range []int{1, 3, 4, 6} {
+			thirds := []int{1, 3, 4, 6}
+			if run.Thorough() {
+				thirds = nil
+				for c3 := 0; c3 < n; c3++ {
+					thirds = append(thirds, c3) // thorough: every ordered triple of declaration kinds
+				}
+			}
+			for _, c3 := range thirds {
 				bound := 1
 				if run.Thorough() {
 					bound = -1
@@ -345,6 +352,6 @@ func TestVerifC20(t *testing.T) {
 	for o := range orders {
 		run.Distinct(o)
 	}
-	run.Finish(!run.Capped(), "source trees: every single item and ordered pair of 11 declaration kinds (annotated function, with other directives, two annotations, method, comment detached by a blank line, on a var, on a type, inside a body, trailing comment, prose mention, plain) in one file, triples with 4 annotated kinds, 5-file trees with nested directories, a _test.go file and a non-Go file; trees whose directory and file names are prefixes of one another (mm/vmm/ next to mm/vmm.go, cpu/ next to cpu.go); files whose annotation starts at every offset within -24..+2 of the 4 KiB boundaries 1,2,3,4,16; every iteration order of every map-typed range executed (full product for one map; <=2 non-identity orders for multi-file trees; triples <=1 in quick, full in thorough); plus the kernel tree itself",
+	run.Finish(!run.Capped(), "source trees: every single item and ordered pair of 11 declaration kinds (annotated function, with other directives, two annotations, method, comment detached by a blank line, on a var, on a type, inside a body, trailing comment, prose mention, plain) in one file, triples with 4 annotated kinds (thorough: every ordered triple), 5-file trees with nested directories, a _test.go file and a non-Go file; trees whose directory and file names are prefixes of one another (mm/vmm/ next to mm/vmm.go, cpu/ next to cpu.go); files whose annotation starts at every offset within -24..+2 of the 4 KiB boundaries 1,2,3,4,16; every iteration order of every map-typed range executed (full product for one map; <=2 non-identity orders for multi-file trees; triples <=1 in quick, full in thorough); plus the kernel tree itself",
 		"distinct = distinct redirect tables observed; every execution compares the ordered table with an independent go/parser scanner")
 }
